@@ -169,6 +169,8 @@ structure SimCore (Z : Setting) (st : St) (rx : Session.ORx) : Prop where
   attOti : st.fdtId.isSome = true → st.oti.isSome = true
   /-- once the OTI of a non-empty object is known the block table exists and the packet cache has been replayed -/
   part : st.oti.isSome = true → Z.S.n ≠ 0 → 0 < st.nbBlock ∧ st.cache = []
+  /-- no Content-MD5 announced (`FileOK.md5`) -/
+  md5 : st.md5 = none
 
 /-- the invariants of the ObjRecv side (all proved over genuine histories elsewhere) -/
 structure Good (Z : Setting) (st : St) : Prop where
@@ -363,7 +365,7 @@ theorem push_unknown (Z : Setting) (hZ : Z.OK) (st st' : St) (os : Session.OStat
     simp at h; subst h
     rw [hfull]; simp only [hf, decide_false, Bool.false_eq_true, if_false]
     refine ⟨fun _ => ⟨{ rx with cache := s :: rx.cache }, by simp [Session.finish], ?_⟩, fun hh => absurd hrec hh, ?_, ?_, ?_, ?_⟩
-    · refine ⟨hsim.oti, hsim.att, hsim.wr, hsim.written, ?_, ?_, fun hh => by simp [hin] at hh, ?_, hsim.nodup, hsim.maxSz, hsim.attOti, fun hh => by simp [hoti] at hh⟩
+    · refine ⟨hsim.oti, hsim.att, hsim.wr, hsim.written, ?_, ?_, fun hh => by simp [hin] at hh, ?_, hsim.nodup, hsim.maxSz, hsim.attOti, fun hh => by simp [hoti] at hh, hsim.md5⟩
       · simp [g.sym, hsim.cache]
       · simp [Session.cacheSum, hsim.cacheSize, g.len, Nat.add_comm]
       · intro b e; exact hsim.got b e
@@ -597,7 +599,7 @@ theorem push_first_inband (Z : Setting) (hZ : Z.OK) (H : Steps Z) (st st' : St) 
     refine ⟨by rw [hot1], by rw [hs1]; exact hsim.att, fun hh => by rw [hs1] at hh; simp [hfd] at hh,
       by rw [hs1]; exact hsim.written, by rw [hs1]; simp [hc, hrc], by rw [hs1]; simp [hcs, hrc, Session.cacheSum],
       fun _ => by rw [hs1]; exact hc, ?_, by simp [hgot], by rw [hs1]; exact hsim.maxSz,
-      fun hh => by rw [hs1] at hh; simp [hfd] at hh, fun _ _ => ⟨hnb1, by rw [hs1]; exact hc⟩⟩
+      fun hh => by rw [hs1] at hh; simp [hfd] at hh, fun _ _ => ⟨hnb1, by rw [hs1]; exact hc⟩, by rw [hs1]; exact hsim.md5⟩
     intro b e
     simp only [hgot, List.not_mem_nil, false_iff]
     rintro ⟨_, blk, d, hb, hd, _⟩
@@ -629,7 +631,7 @@ theorem empty_tail (Z : Setting) (hZ : Z.OK) (st s1 st' : St) (os : Session.OSta
     (f_state : s1.state = .receiving) (f_oti : s1.oti = some Z.S.o) (f_tl : s1.tl = some 0) (f_cache : s1.cache = st.cache)
     (f_cs : s1.cacheSize = st.cacheSize) (f_max : s1.maxSize = st.maxSize) (f_blocks : s1.blocks = []) (f_off : s1.blocksOffset = 0)
     (f_wr : s1.writer = st.writer) (f_bw : s1.bw = none) (f_fdt : s1.fdtId = st.fdtId) (f_out : s1.out = st.out)
-    (hb0 : st.blocks = []) (ho0 : st.blocksOffset = 0)
+    (f_md5 : s1.md5 = st.md5) (hb0 : st.blocks = []) (ho0 : st.blocksOffset = 0)
     (hrx1 : rx1 = { rx with otiKnown := true })
     (h : (match pushToBlock Z.P s1 p with
           | .error f => .error f
@@ -650,8 +652,9 @@ theorem empty_tail (Z : Setting) (hZ : Z.OK) (st s1 st' : St) (os : Session.OSta
   rw [hS]
   -- ObjRecv side
   have hpb : pushToBlock2 Z.P s1 p = .ok (if s1.writer.isSome then complete s1 else s1, true) := by
+    have hv : emptyMd5Valid Z.P s1 = true := by simp [emptyMd5Valid, f_md5, hsim.md5]
     unfold pushToBlock2
-    simp [f_oti, f_tl, hpid, f_bw]
+    simp [f_oti, f_tl, hpid, f_bw, hv]
   unfold pushToBlock at h
   rw [hpb] at h
   dsimp only at h
@@ -706,7 +709,7 @@ theorem empty_tail (Z : Setting) (hZ : Z.OK) (st s1 st' : St) (os : Session.OSta
         refine ⟨by simp [f_oti], by rw [f_fdt]; exact hsim.att, fun hh => by rw [f_fdt] at hh; rw [f_wr]; exact hsim.wr hh,
           by rw [f_off, ← ho0]; exact hsim.written, by rw [f_cache]; exact hsim.cache, by rw [f_cs]; exact hsim.cacheSize,
           fun hh => by rw [f_cache]; exact hsim.inband hh, ?_, hsim.nodup, by rw [f_max]; exact hsim.maxSz,
-          fun hh => by simp [f_oti], fun _ hh => absurd hn hh⟩
+          fun hh => by simp [f_oti], fun _ hh => absurd hn hh, by rw [f_md5]; exact hsim.md5⟩
         intro b e
         rw [hsim.got b e]
         unfold holds
@@ -774,7 +777,7 @@ theorem push_empty (Z : Setting) (hZ : Z.OK) (st st' : St) (os : Session.OState)
     have hrx : rx = { rx with otiKnown := true } := by cases rx; simp_all
     exact empty_tail Z hZ st s1 st' os rx rx p s hg hr hsim g hn (by rw [hs1]; exact hrec) (by rw [hs1]; exact ho)
       (by rw [hs1]; exact htl) (by rw [hs1]) (by rw [hs1]) (by rw [hs1]) (by rw [hs1]; simp [hn]) (by rw [hs1]; exact ho0)
-      (by rw [hs1]) (by rw [hs1]; exact hbw) (by rw [hs1]) (by rw [hs1]) hb0 ho0 hrx h
+      (by rw [hs1]) (by rw [hs1]; exact hbw) (by rw [hs1]) (by rw [hs1]) (by rw [hs1]) hb0 ho0 hrx h
   | none =>
     cases hk with
     | inl hk => simp [ho] at hk
@@ -814,7 +817,7 @@ theorem push_empty (Z : Setting) (hZ : Z.OK) (st st' : St) (os : Session.OState)
       rw [hS]
       exact empty_tail Z hZ st s1 st' os rx _ p s hg hr hsim g hn (by rw [hs1]; exact hrec) (by rw [hs1]) (by rw [hs1])
         (by rw [hs1]) (by rw [hs1]) (by rw [hs1]) (by rw [hs1]; simp [hn]) (by rw [hs1]; exact ho0)
-        (by rw [hs1]) (by rw [hs1]; exact hbw) (by rw [hs1]) (by rw [hs1]) hb0 ho0 rfl h
+        (by rw [hs1]) (by rw [hs1]; exact hbw) (by rw [hs1]) (by rw [hs1]) (by rw [hs1]) hb0 ho0 rfl h
 
 /-- `push` on a live object: the cache lemma, the two prefix lemmas, and the remaining step hypotheses -/
 theorem push_live (Z : Setting) (hZ : Z.OK) (H : Steps Z) (st st' : St) (os : Session.OState) (rx : Session.ORx) (p : Pkt)
@@ -891,7 +894,7 @@ theorem runL_rel (Z : Setting) (hZ : Z.OK) (H : Steps Z) :
 theorem rel_new (Z : Setting) (toi : Nat) :
     Rel Z (St.new toi Z.maxSize) { obj := some Session.rx0 } := by
   refine ⟨fun _ => ⟨Session.rx0, rfl, ?_⟩, fun h => absurd rfl h, rfl, rfl, rfl, rfl⟩
-  refine ⟨rfl, rfl, fun h => by simp [St.new] at h, rfl, rfl, rfl, fun _ => rfl, ?_, List.nodup_nil, rfl, fun h => by simp [St.new] at h, fun h => by simp [St.new] at h⟩
+  refine ⟨rfl, rfl, fun h => by simp [St.new] at h, rfl, rfl, rfl, fun _ => rfl, ?_, List.nodup_nil, rfl, fun h => by simp [St.new] at h, fun h => by simp [St.new] at h, rfl⟩
   intro b e
   simp [Session.rx0, holds, St.new]
 
